@@ -114,9 +114,13 @@ def main():
 
         sys.stdout.flush()
 
-    bad = [r for r in results if r[1] != 'KILLED']
-    print('SENSITIVITY: %d mutants, %d killed by their primary check, '
-          '%d not' % (len(results), len(results) - len(bad), len(bad)))
+    bad = [r for r in results if r[1] != 'KILLED' and
+           not r[1].startswith('USELESS')]
+    useless = [r for r in results if r[1].startswith('USELESS')]
+    print('SENSITIVITY: %d mutants; %d already caught by the pinned suite '
+          '(not counted); %d killed by their primary check; %d NOT killed'
+          % (len(results), len(useless),
+             len(results) - len(bad) - len(useless), len(bad)))
 
     for n, v, d in bad:
         print('   %s: %s' % (n, v))
